@@ -1,9 +1,13 @@
 #!/bin/bash
 # try_seed.sh <seed dir name> <property...> : apply the seeded patch to /repo, run the checks, undo
 d=/verif/seeded/$1; shift
+save=$(mktemp -d); cp -a /verif/evidence $save/evidence; ls /verif/replays > $save/replays.list
 git -C /repo apply $d/patch.diff || { echo "PATCH DOES NOT APPLY: $d"; exit 2; }
 for p in "$@"; do
   out=$(cd /verif && ./check $p --tier quick 2>&1 | grep -E "VIOLATION|KNOWN" | head -2)
   echo "$(basename $d) -> $p: ${out:-no alarm}"
 done
 git -C /repo checkout -- .
+rm -rf /verif/evidence; cp -a $save/evidence /verif/evidence
+for f in /verif/replays/*; do grep -qx "$(basename $f)" $save/replays.list || rm -f "$f"; done
+rm -rf $save
